@@ -8,6 +8,7 @@ import (
 	"net/http"
 	"net/url"
 	"runtime"
+	"sort"
 	"strconv"
 	"strings"
 	"sync"
@@ -326,6 +327,23 @@ func famStress(o *Out, r R, tier string) {
 	}
 	m, _ := cors.NewMiddleware(cloneCfg(q))
 	m.SetDebug(true)
+	// a handler wrapped once, before anything else happens, and used throughout the run by one more reader
+	longLived := m.Wrap(http.HandlerFunc(func(http.ResponseWriter, *http.Request) {}))
+	viaLongLived := func(rq reqT) string {
+		w := &rw{h: http.Header{}, status: -1}
+		req := &http.Request{Method: rq.method, Header: cloneHdr(rq.hdrs), URL: &url.URL{Path: "/"}, Proto: "HTTP/1.1"}
+		longLived.ServeHTTP(w, req)
+		keys := make([]string, 0, len(w.h))
+		for k := range w.h {
+			keys = append(keys, k)
+		}
+		sort.Strings(keys)
+		out := strconv.Itoa(w.status)
+		for _, k := range keys {
+			out += "|" + k + "=" + strings.Join(w.h[k], ",")
+		}
+		return out
+	}
 	var bad atomic.Value
 	var nresp, ncycles atomic.Int64
 	stop := make(chan struct{})
@@ -406,11 +424,58 @@ func famStress(o *Out, r R, tier string) {
 			}
 		}
 	}()
+	wg.Add(1)
+	go func() { // keeps the long-lived handler busy while the writer cycles through the states
+		defer wg.Done()
+		for i := 0; ; i++ {
+			select {
+			case <-stop:
+				return
+			default:
+			}
+			_ = viaLongLived(reqs[i%len(reqs)])
+		}
+	}()
 	time.Sleep(dur)
 	close(stop)
 	wg.Wait()
 	msg, _ := bad.Load().(string)
 	o.emitDirect("conc-stress", msg == "", fmt.Sprintf("%d responses, %d writer cycles; %s", nresp.Load(), ncycles.Load(), msg))
+	// after quiescence: one more reconfiguration that nothing overlaps, then the handler wrapped at the very beginning must
+	// answer exactly like a handler wrapped now (a per-Wrap snapshot that survives its invalidation would not)
+	lmsg := ""
+	for round := 0; round < 3 && lmsg == ""; round++ {
+		final := []*cors.Config{&p, &s, &q}[round]
+		var wg2 sync.WaitGroup
+		wg2.Add(1)
+		go func() {
+			defer wg2.Done()
+			for k := 0; k < 2000; k++ {
+				_ = viaLongLived(reqs[k%len(reqs)])
+			}
+		}()
+		m.Reconfigure(final)
+		wg2.Wait()
+		fresh := m.Wrap(http.HandlerFunc(func(http.ResponseWriter, *http.Request) {}))
+		for _, rq := range reqs {
+			w := &rw{h: http.Header{}, status: -1}
+			fresh.ServeHTTP(w, &http.Request{Method: rq.method, Header: cloneHdr(rq.hdrs), URL: &url.URL{Path: "/"}, Proto: "HTTP/1.1"})
+			keys := make([]string, 0, len(w.h))
+			for k := range w.h {
+				keys = append(keys, k)
+			}
+			sort.Strings(keys)
+			want := strconv.Itoa(w.status)
+			for _, k := range keys {
+				want += "|" + k + "=" + strings.Join(w.h[k], ",")
+			}
+			if got := viaLongLived(rq); got != want {
+				lmsg = "after Reconfigure returned and traffic drained, a handler wrapped before the run answers " + truncate(got) + " where a handler wrapped now answers " + truncate(want) + " to " + str(rq.sx())
+				break
+			}
+		}
+	}
+	o.emitDirect("conc-long-lived-handler", lmsg == "", "a handler wrapped once follows later reconfigurations like a freshly wrapped one "+lmsg)
 	stressWriters(o, dur/2, &q)
 }
 
@@ -872,6 +937,34 @@ func famPanic(o *Out, r R, tier string) {
 			}
 		}
 	}
+	valid2, _ := cors.NewMiddleware(cors.Config{Origins: []string{"*"}, RequestHeaders: []string{"*"}, Methods: []string{"*"}})
+	// every prefix and every suffix of maximal well-formed strings, as a pattern and as an Origin (a scanner that looks one
+	// byte ahead at a length boundary reads past the end exactly when the string stops there)
+	{
+		maxScheme := "a" + strings.Repeat("b", 63)
+		fulls := []string{maxScheme + "://" + longHost(253, 'a') + ".:65535", "https://*." + longHost(251, 'a') + ":*", "http://[2001:db8:aaaa:bbbb:cccc:dddd:eeee:ffff]:65535",
+			"https://" + strings.TrimSuffix(strings.Repeat("a.", 127), "."), "x-bar, x-foo ,\tx-qux"}
+		for _, full := range fulls {
+			for k := 0; k <= len(full); k++ {
+				for _, piece := range []string{full[:k], full[k:]} {
+					piece := piece
+					guard("panic/prefix-suffix", "NewMiddleware and ServeHTTP on a prefix/suffix ("+strconv.Itoa(len(piece))+" bytes) of "+truncate(full), func() {
+						_, _ = cors.NewMiddleware(cors.Config{Origins: []string{piece}})
+						_, _ = cors.NewMiddleware(cors.Config{Origins: []string{"https://example.com"}, Methods: []string{piece}, RequestHeaders: []string{piece}, ResponseHeaders: []string{piece}})
+						for _, mm := range []*cors.Middleware{valid, valid2} {
+							for _, q := range []reqT{{method: "GET", hdrs: http.Header{"Origin": {piece}}},
+								{method: "OPTIONS", hdrs: http.Header{"Origin": {piece}, "Access-Control-Request-Method": {piece}, "Access-Control-Request-Headers": {piece}}},
+								{method: "OPTIONS", hdrs: http.Header{"Origin": {"https://foo.example.com"}, "Access-Control-Request-Method": {"PUT"}, "Access-Control-Request-Headers": {piece}}}} {
+								if out := serveOnce(mm, q, http.Header{}); out.panicked {
+									panic("handler panicked")
+								}
+							}
+						}
+					})
+				}
+			}
+		}
+	}
 	// long configured names and methods (63..130 bytes) x requested methods / header elements of every length up to
 	// beyond the longest (length-indexed tables, fixed buffers), in both debug modes
 	for _, longest := range []int{63, 64, 65, 100, 128, 130} {
@@ -934,7 +1027,6 @@ func famPanic(o *Out, r R, tier string) {
 			})
 		}
 	}
-	valid2, _ := cors.NewMiddleware(cors.Config{Origins: []string{"*"}, RequestHeaders: []string{"*"}, Methods: []string{"*"}})
 	// the full product of field shapes (absent, nil, zero values, empty value, good value, two values) around an
 	// otherwise well-formed preflight / actual request, for three configurations and both debug modes
 	shapes := func(good string) [][]string {
@@ -1155,6 +1247,8 @@ func famAlloc(o *Out, r R, tier string) {
 					q.hdrs["Access-Control-Request-Method"] = append([]string{"PUT"}, make([]string, n)...)
 				case "acrpn-values":
 					q.hdrs["Access-Control-Request-Private-Network"] = append([]string{"true"}, make([]string, n)...)
+				case "origin-ace-labels": // n Punycode labels in the Origin host
+					q.hdrs["Origin"] = []string{"https://" + strings.Repeat("xn--bcher-kva.", min(n, 15)) + "example.com"}
 				case "origin-upper":
 					q.hdrs["Origin"] = []string{"HTTPS://" + strings.Repeat("A", n) + ".EXAMPLE.COM"}
 				case "acrh-len":
@@ -1194,7 +1288,7 @@ func famAlloc(o *Out, r R, tier string) {
 				}
 				return q
 			}
-			for _, kind := range []string{"origin-len", "origin-values", "origin-upper", "acrm-len", "acrm-values", "acrpn-values", "acrh-elems-valid", "acrh-elems", "acrh-elems-upper", "acrh-elems-mixed", "acrh-len", "acrh-lines", "acrh-lines-upper", "acrh-lines-valid", "acrh-ows", "actual-origin-len", "actual", "acrh-long-then-lines", "preset/acrh-lines", "preset/acrh-elems", "preset/acrm-len"} {
+			for _, kind := range []string{"origin-len", "origin-values", "origin-ace-labels", "origin-upper", "acrm-len", "acrm-values", "acrpn-values", "acrh-elems-valid", "acrh-elems", "acrh-elems-upper", "acrh-elems-mixed", "acrh-len", "acrh-lines", "acrh-lines-upper", "acrh-lines-valid", "acrh-ows", "actual-origin-len", "actual", "acrh-long-then-lines", "preset/acrh-lines", "preset/acrh-elems", "preset/acrm-len"} {
 				var pre http.Header
 				reqKind := kind
 				if strings.HasPrefix(kind, "preset/") { // an outer layer has already set list-based CORS headers and Vary
@@ -1241,6 +1335,12 @@ func famAlloc(o *Out, r R, tier string) {
 				a := allocsForPre(m, q, nil)
 				if base < 0 {
 					base = a
+				}
+				// the same names re-cased (refused, but the refusal must not cost an allocation per name either)
+				qu := reqT{method: "OPTIONS", hdrs: http.Header{"Origin": {"https://example.com"}, "Access-Control-Request-Method": {"PUT"},
+					"Access-Control-Request-Headers": {strings.ToUpper(strings.Join(sub, ","))}}}
+				if au := allocsForPre(m, qu, nil); au > a {
+					a = au
 				}
 				o.emitDirect("alloc/large-allow-list", a <= base+0.5 && a <= K, fmt.Sprintf("%d allowed names, ACRH lists the %s %d: %v allocations (first measurement %v)", nNames, from, take, a, base))
 			}
